@@ -181,7 +181,7 @@ def rand_values(rng):
         return []
     while True:
         vals = sorted({rng.randint(-40000, 40000) for _ in range(rng.choice([1, 2]))})
-        if not any('-3276' in str(v) for v in vals):      # in-band removal sentinel: not modelled
+        if not any('3276' in str(v) for v in vals):      # in-band removal sentinel: not modelled
             return vals
 
 
@@ -348,7 +348,9 @@ class C34(Prop):
         'CylcModel.C34.offset_selects_neighbour',
         'CylcModel.C34.offset_prev',
         'CylcModel.C34.offset_duplicates_counterexample',
+        'CylcModel.C34.fixed_subst_eq_checked',
         'CylcModel.C34.select_member_spec',
+        'CylcModel.C34.check_iff_valid',
         'CylcModel.C34.fixed_old_partial',
         'CylcModel.C34.fixed_old_counterexample',
         'CylcModel.C34.heading_is_product_partial',
@@ -383,11 +385,14 @@ class C34(Prop):
         'Python int() and %-formatting (%s, %d with + / 0 / width) re-implemented as pyInt? / fmtVal (ASCII only)',
     ]
     unmodelled = [
-        'the same parameter twice inside one <...> group; duplicate members in a value list; templates with other '
-        'conversions than %s / %[+][0W]d; non-ASCII digits; parameter values or literals that contain the text -3276 '
-        '(in-band removal sentinel); parentheses in graph expressions; NameExpander.expand_parent_params',
-        'what parse_graph does with the rest of a chain after an expression has been emptied (it is cut; the judge accepts '
-        'both cutting and keeping the rest)',
+        'the same parameter twice inside one <...> group; duplicate members in a value list (offset_duplicates_counterexample); '
+        'templates with other conversions than %s / %[+][0W]d; non-ASCII digits; parentheses in graph expressions; graph nodes '
+        'that do not start with a word character; NameExpander.expand_parent_params',
+        'the removal sentinel is in-band: parameter values, templates or literals that put the text -3276 into a node name '
+        '(e.g. template -%(j)s with the value 32769) make the parser drop that node; never generated',
+        'what parse_graph does with the rest of a chain after an expression has been emptied (it is cut there, as its unit tests '
+        'pin; the docstring of GraphExpander.expand says the rest stays): modelled as the code does it, the judge accepts both',
+        "literal '%' in parameterised heading names while the finding heading-percent-literal is recorded",
     ]
     rule = ('systematic box (6 parameter sets x every selection kind x node shapes x chain shapes, graph lines and headings) '
             'plus seeded random structures: 1-3 parameters (int ranges incl. negative / 8-digit values, words, number-like '
